@@ -311,7 +311,9 @@ def analyze(ctx, want):
                     ob("C09.d", "next_match:exhaustion-records-end-of-input", ok,
                        "on exhaustion the line start after a trailing newline is recorded at %s (must be the end of the haystack)" % S.vstr(i_arg), nm.loc(rec[0][1]))
                 else:
-                    ob("C09.d", "next_match:exhaustion-records-end-of-input", len(rec) == 0, "record_line_offset called %d times on exhaustion" % len(rec), nm.loc())
+                    # (the last char may have been a line break nobody recorded a line start for yet: position(len) of such an
+                    # input needs this record — "also ... after it was exhausted")
+                    ob("C09.d", "next_match:exhaustion-records-end-of-input", False, "record_line_offset called %d times on exhaustion (must be once, with the end of the haystack)" % len(rec), nm.loc())
             else:
                 ob("C01.d", "next_match:skip-path-end", False, "unexpected end %s" % (p.end,), nm.loc())
             ob("C07.b", "next_match:no-advance-on-failed-attempt", not adv, "advance_to on a failed attempt", nm.loc())
